@@ -17,10 +17,9 @@
      DocMeansPre    the document joins no pair of vertices twice and the SPECIFICATION's decoding of it
                     is anchored-isomorphic to g: the text means the right thing to another reader
      ScalarExact    g's scalar is sqrt2^p e^{i k pi/4} (Ring!ExactPhasePow): the decoded scalar is the
-                    same element of Z[omega][1/2] ("preserved exactly" = the same number: the four dyadic
-                    coefficients are equal; the provenance flag `approx` that decoding sets by multiplying
-                    with the float factor 1.0 is not part of the number and is counted in
-                    stats.approx_flag_set only)
+                    same element of Z[omega][1/2] ("preserved exactly": the four dyadic coefficients
+                    are equal AND the decoded scalar is not flagged approximate unless the original was,
+                    i.e. Scalar4's own == holds; stats.approx_flag_set counts the flagged ones)
                     ("post"), and the specification's reading of the scalar fields of the document gives
                     that element ("doc")
      ScalarClose    otherwise: |decoded - original| <= 1e-9 |original| (harness, complex doubles; "post"),
@@ -30,11 +29,11 @@
    coordinates incl. the rounded mean on virtual nodes), same scalar record; connectivity up to naming
    is DocMeansPre. *)
 EXTENDS TraceLib, JsonG
-VARIABLES l, pre, prer, crd, dpre, viol, drift, stats
-vars == <<l, pre, prer, crd, dpre, viol, drift, stats>>
+VARIABLES l, pre, prer, crd, dpre, presca, viol, drift, stats
+vars == <<l, pre, prer, crd, dpre, presca, viol, drift, stats>>
 DENMAX == 7
 
-Init == l = 1 /\ pre = EmptyG /\ prer = EmptyG /\ crd = <<>> /\ dpre = [ok |-> FALSE, t |-> <<>>] /\ viol = <<>> /\ drift = <<>>
+Init == l = 1 /\ presca = FALSE /\ pre = EmptyG /\ prer = EmptyG /\ crd = <<>> /\ dpre = [ok |-> FALSE, t |-> <<>>] /\ viol = <<>> /\ drift = <<>>
         /\ stats = [diagrams |-> 0, roundtrips |-> 0, nontrivial |-> 0, den_checked |-> 0, raw_phase |-> 0, hbox |-> 0,
                     hedges |-> 0, exact_scalars |-> 0, other_scalars |-> 0, approx_flag_set |-> 0, refine_iso |-> 0, l1same |-> 0]
 
@@ -75,7 +74,7 @@ IsEncodeUpToNames(doc, want) ==
 Step(e) ==
   CASE e.k = "reset" ->
          LET den == Denotable(e.pre) IN
-         /\ prer' = FromAbsRaw(e.pre) /\ crd' = CrdOf(e.pre)
+         /\ prer' = FromAbsRaw(e.pre) /\ crd' = CrdOf(e.pre) /\ presca' = e.pre.sca
          /\ pre' = IF den THEN FromAbs(e.pre) ELSE EmptyG
          /\ dpre' = [ok |-> den, t |-> IF den THEN Den(Unit(pre')) ELSE <<>>]
          /\ stats' = [stats EXCEPT !.diagrams = @ + 1]
@@ -84,7 +83,7 @@ Step(e) ==
          IF e.res # "ok" THEN
            /\ viol' = Append(viol, <<l, "NoError", e.via, e.be, e.res>>)
            /\ stats' = [stats EXCEPT !.roundtrips = @ + 1]
-           /\ UNCHANGED <<pre, prer, crd, dpre, drift>>
+           /\ UNCHANGED <<pre, prer, crd, dpre, presca, drift>>
          ELSE
            LET post == FromAbsRaw(e.post)
                cpost == CrdOf(e.post)
@@ -96,7 +95,7 @@ Step(e) ==
                means == wf /\ DocSimple(doc) /\ ~dec.panic /\ ~dec.unsupported /\ IsoAnchoredC(dec.g, dec.cg, prer, crd)
                exact == ExactPhasePow(prer.sc)[1]
                \* the decoded scalar (post) and the scalar fields as another reader understands them (doc)
-               scPost == IF exact THEN e.scalar_exact_kept /\ ~e.sc_big /\ ScFromAbs(e.post.sc) = prer.sc ELSE e.scalar_close
+               scPost == IF exact THEN e.scalar_exact_kept /\ ~e.sc_big /\ ScFromAbs(e.post.sc) = prer.sc /\ (e.post.sca => presca) ELSE e.scalar_close
                scDoc == IF exact THEN ScalarExactDoc(doc.scalar) /\ DecodeScalar(doc.scalar) = prer.sc ELSE e.doc_scalar_close
                scName == IF exact THEN "ScalarExact" ELSE "ScalarClose"
                same == IsEncodeUpToNames(doc, EncodeWith(prer, crd, ValOfRaw).doc)
@@ -116,7 +115,7 @@ Step(e) ==
                              !.approx_flag_set = @ + (IF exact /\ e.post.sca THEN 1 ELSE 0),
                              !.refine_iso = @ + (IF Cardinality(prer.vs) > 6 THEN 1 ELSE 0),
                              !.l1same = @ + (IF same THEN 1 ELSE 0)]
-              /\ UNCHANGED <<pre, prer, crd, dpre>>
+              /\ UNCHANGED <<pre, prer, crd, dpre, presca>>
 Next == \/ /\ l <= NLines /\ Step(Rec[l]) /\ l' = l + 1
-        \/ /\ l = NLines + 1 /\ Report(l, viol, drift, stats) /\ l' = l + 1 /\ UNCHANGED <<pre, prer, crd, dpre, viol, drift, stats>>
+        \/ /\ l = NLines + 1 /\ Report(l, viol, drift, stats) /\ l' = l + 1 /\ UNCHANGED <<pre, prer, crd, dpre, presca, viol, drift, stats>>
 =============================================================================
